@@ -69,7 +69,28 @@ def gen_case(rng, tier):
         starts = [s for s, p in m["init"] if F(p) > 0]
         if keep_trivial or any(not m["absorbing"][s] for s in starts):
             break
-    return {"mdp": m, "m": rng.randint(1, 5), "episodes": rng.randint(1, 30),
+    # how the MDP presents its actions: labels (ints, ints in shuffled naming, or strings whose sorted
+    # order differs from the id order) and the ORDER in which actions(s) lists them (sorted / one
+    # shuffled order for all states / a different shuffled order per state).  msdm sorts action_list,
+    # so positions in action_list differ from positions in actions(s); results are mapped by label.
+    nA = m["nA"]
+    kind = rng.random()
+    if kind < .3:
+        labels = list(range(nA))
+    elif kind < .55:
+        labels = rng.sample(range(10), nA)
+    else:
+        labels = rng.sample(["up", "down", "left", "right", "stay", "x", "a0", "B"], nA)
+    okind = rng.random()
+    if okind < .2:
+        perm = [list(range(nA)) for _ in range(m["n"])]
+    elif okind < .6:
+        p0 = rng.sample(range(nA), nA)
+        perm = [list(p0) for _ in range(m["n"])]
+    else:
+        perm = [rng.sample(range(nA), nA) for _ in range(m["n"])]
+    return {"mdp": m, "action_labels": labels, "action_perm": perm,
+            "m": rng.randint(1, 5), "episodes": rng.randint(1, 30),
             "seed": rng.randrange(2 ** 31),
             "tol": rng.choice(["1/100000"] * 3 + ["1/1000", "1/10"]),
             "rmax": str(rmax_of(m))}
@@ -143,7 +164,7 @@ def structure_problem(case, res):
         return "state-list-not-a-sorted-set-of-generated-states"
     if res["n_states"] != nS or res["n_actions"] != nA:
         return "learner-table-size-differs-from-state-list-x-action-list"
-    if res["q_states"] != sl or any(qa != al for qa in res["q_actions"]):
+    if res["q_states"] != sl or any(qa != sorted(al) for qa in res["q_actions"]):
         return "q-dict-not-over-state-list-x-action-list"
     if any(x is None or isinstance(x, str) for row in res["Q"] for x in row):
         return "q-value-missing-or-nonfinite"
